@@ -342,6 +342,9 @@ pub fn check(_ctx: &Ctx, input: &Input) -> CaseResult {
                 for (id, got) in $ans.iter() {
                     // all input indices this id was handed out for
                     let inputs: Vec<u32> = $ids.iter().enumerate().filter(|(_, x)| *x == id).map(|(i, _)| i as u32).collect();
+                    if $name == "function" && inputs.iter().any(|i| iso.ambiguous_funcs.contains(i)) {
+                        continue;
+                    }
                     let want: Vec<u32> = inputs.iter().filter_map(|i| $bij.fwd.get(i).copied()).collect();
                     if !want.is_empty() && !want.contains(got) {
                         return Err(Failure::new(
